@@ -121,7 +121,7 @@ def gen_direct(rng, infeasible=False, classes=None, plain=False):
     with_bool_col = bool(bools) or rng.random() < 0.3
     return {"kind": "direct", "n": n, "c": c, "l": l, "u": u, "rows": rows, "map": maprows, "bool_col": with_bool_col,
             "bools": bools, "x0": x0, "A_format": rng.choice(["lil", "lil", "csr", "coo", "csc"]),
-            "bool_nan": bool(bools) and rng.random() < 0.3, "int_c": rng.random() < 0.2}
+            "bool_nan": bool(bools) and rng.random() < 0.3, "int_c": rng.random() < 0.2, "coo_dups": rng.random() < 0.12}
 
 
 def build_direct(s):
@@ -147,6 +147,13 @@ def build_direct(s):
         m["bool"] = m["bool"].astype(object).where(m["bool"], np.nan)
     if A is not None and s.get("A_format", "lil") != "lil":
         A = getattr(A, "to" + s["A_format"])()
+    if A is not None and s.get("coo_dups"):
+        # coo format with every entry split into two that have to be summed, plus explicitly stored zeros
+        Ac = sp.coo_matrix(A)
+        r_ = np.concatenate([Ac.row, Ac.row, np.zeros(1, dtype=Ac.row.dtype)])
+        c_ = np.concatenate([Ac.col, Ac.col, np.zeros(1, dtype=Ac.col.dtype)])
+        d_ = np.concatenate([Ac.data * 0.25, Ac.data * 0.75, np.zeros(1)])
+        A = sp.coo_matrix((d_, (r_, c_)), shape=Ac.shape)
     c = np.array(s["c"], float)
     if s.get("int_c"):
         c = np.round(c).astype(np.int64)     # whole-number costs handed over as an integer array
@@ -220,7 +227,7 @@ def gen_plan(rng, run_index, tier, opts):
     plan["target"] = "value"
     if plan["source"]["kind"] not in ("split", "direct_split") and tr < 0.15:
         plan["target"] = "robust"
-        plan["n_samples"] = rng.randint(2, 4)
+        plan["n_samples"] = rng.choice([1, 2, 2, 3, 4])
         plan["sample_seed"] = rng.randrange(10 ** 6)
     if mip and rng.random() < 0.15:
         plan["soft"] = True
@@ -486,9 +493,17 @@ class Conversation:
         if k not in self.requests or rec.get("eao_options"):
             return False     # (options EAO passed itself - looser tolerances, limits - are not the peer's fault)
         prob, xv, oth = self.requests[k]
+        # the peer is only responsible for what it answered itself: if EAO returns something else than the peer's
+        # own values (post-processing), the returned vector is EAO's and is judged without excuse
+        px = (rec.get("peer_values") or {}).get(id(xv))
+        if px is None or px.shape != np.asarray(x).shape or \
+                not np.allclose(px, np.asarray(x, float), rtol=1e-9, atol=1e-9 * (1 + float(np.abs(px).max(initial=0)))):
+            if px is not None:
+                self.stats["returned_x_differs_from_peer_answer"] = self.stats.get("returned_x_differs_from_peer_answer", 0) + 1
+            return False
         try:
-            xv.save_value(np.asarray(x, float))
-            self.set_aux(oth, x)
+            xv.save_value(px)
+            self.set_aux(oth, px)
             cv = max([float(np.max(np.atleast_1d(c.violation()), initial=0)) for c in prob.constraints] or [0.0])
         except Exception:
             return False
